@@ -548,6 +548,9 @@ class EventSeries(Cached):
         else:
             e2 = ts2[eventseriesy == 1]
 
+        if len(e1) == 0 or len(e2) == 0:  # Division by zero in output
+            return np.nan, np.nan, np.nan, np.nan
+
         # Count events that cannot be coincided due to lag and delT
         if not (lag == 0 and taumax == 0):
             n11 = len(e1[e1 <= e1[0] + lag + taumax])  # Start of es1
@@ -618,6 +621,9 @@ class EventSeries(Cached):
             e2 = np.where(eventseriesy)[0]
         else:
             e2 = ts2[eventseriesy == 1]
+
+        if len(e1) == 0 or len(e2) == 0:  # Division by zero in output
+            return np.nan, np.nan
 
         lag = self.__lag
         taumax = self.__taumax
